@@ -16,8 +16,10 @@ import (
 //
 // Decided with the ordering abstraction over the terms x = candidate.SequenceId, c = state.SequenceId,
 // p = previous.SequenceId (when a previous candidate has been kept): in one iteration of the loop over the periods
-//   current  := candidate   exactly when x == c,
-//   previous := candidate   exactly when x < c and (no previous kept, or x > p)   (x == p: either),
+//
+//	current  := candidate   exactly when x == c,
+//	previous := candidate   exactly when x < c and (no previous kept, or x > p)   (x == p: either),
+//
 // nothing else is ever assigned to the two results, the loop visits every element (no early exit) and the function
 // returns the two loop-carried values.
 func minterSelectRule(w *World, r *Report, rule string) {
